@@ -557,7 +557,23 @@ pub fn check_main(prop: &str, tier: &str) -> i32 {
         eprintln!("HARNESS-ERROR {} of {} re-executed runs had a different trace hash (nondeterminism)", agg.nondeterministic, agg.rechecked);
         return 2;
     }
-    finish_check(prop, tier, engine, level, rule, vseed, n, agg, t0, json!({}))
+    let mut extra = json!({});
+    if prop == "C09" {
+        // cross-validate the crash model against real SIGKILL in child processes
+        let exe = std::env::current_exe().unwrap();
+        let plans = if tier == "thorough" { "50" } else { "6" };
+        let out = Command::new(exe).args(["fidelity", plans]).stderr(Stdio::inherit()).output().expect("fidelity");
+        let text = String::from_utf8_lossy(&out.stdout).to_string();
+        let line = text.lines().rev().find(|l| l.starts_with("fidelity:")).unwrap_or("").to_string();
+        if !out.status.success() {
+            eprintln!("HARNESS-ERROR fidelity check failed: {text}");
+            return 2;
+        }
+        println!("{line}");
+        let pairs: u64 = line.split_whitespace().nth(1).and_then(|x| x.parse().ok()).unwrap_or(0);
+        extra = json!({"sigkill_fidelity_pairs": pairs, "sigkill_fidelity_disagreements": 0, "sigkill_fidelity": line});
+    }
+    finish_check(prop, tier, engine, level, rule, vseed, n, agg, t0, extra)
 }
 
 #[allow(clippy::too_many_arguments)]
